@@ -237,7 +237,7 @@ const OVERRIDES: [Option<&str>; 7] = [
 ];
 const SCOPE_NAMES: [&str; 7] =
   ["none", "assertionMethod", "authentication", "VerificationMethod", "keyAgreement", "capabilityDelegation", "capabilityInvocation"];
-const ISSUER_NAMES: [&str; 9] = ["I", "J", "other-did", "https-url", "I+path", "I-as-object", "J-as-object", "I+one-char", "I-less-one-char"];
+const ISSUER_NAMES: [&str; 11] = ["I", "J", "other-did", "https-url", "I+path", "I-as-object", "J-as-object", "I+one-char", "I-less-one-char", "I+fragment", "I+query"];
 const ENTRY_NAMES: [&str; 6] =
   ["validate(I)", "verify_signature([I])", "verify_signature([J,I])", "validate(J)", "verify_signature([I,J])", "verify_signature([])"];
 /// n1x extends n1, N1 differs from n1 in case only, "" is the empty nonce
@@ -500,7 +500,10 @@ impl Ch {
       5 => json!({"id": DID_I, "name": "Issuer Inc"}),
       6 => json!({"id": DID_J, "name": "Issuer Inc"}),
       7 => json!("did:vx:issuerx"),
-      _ => json!("did:vx:issue"),
+      8 => json!("did:vx:issue"),
+      // DID URLs that extend the DID of I (the fragment is the one of the signing method)
+      9 => json!("did:vx:issuer#m1"),
+      _ => json!("did:vx:issuer?versionId=1"),
     }
   }
   fn issuer_url(&self) -> String {
@@ -706,16 +709,10 @@ fn expect(ch: &Ch) -> Expect {
           Some(m) => c[SIG] = tri(m.key == signer && !tamper),
         },
       }
-      c[ISSUER] = if ch.issuer == 4 {
-        // issuer = DID of I followed by a path: whether that "equals" I is left open
-        if did == DID_I {
-          Open
-        } else {
-          F
-        }
-      } else {
-        tri(issuer_url == did)
-      };
+      // "that method's DID equals ... the credential's issuer": equality of the two identifiers. An issuer that is the
+      // DID of I followed by a path, a fragment or a query is another URL than that DID (judged since seed C02-l; the
+      // library parses the issuer with the DID type's FromStr, which accepts no DID URL parts).
+      c[ISSUER] = tri(issuer_url == did);
     }
   }
 
@@ -1101,9 +1098,6 @@ fn body(ctx: &Ctx, core: Option<[u8; 6]>, chooser: &mut Chooser) {
   let verdict = if verdict.contains('+') { "rejected:several-errors" } else { verdict };
   if OVERRIDES[ch.ovr].is_none() && (ch.kid == 8 || ch.kid == 10) {
     ctx.outcome(&format!("open-alternative kid={} -> {verdict}", KID_NAMES[ch.kid]));
-  }
-  if ch.issuer == 4 {
-    ctx.outcome(&format!("open-alternative issuer=I+path -> {verdict}"));
   }
   if ch.structure == 5 {
     ctx.outcome(&format!("open-alternative subject-array -> {verdict}"));
